@@ -231,3 +231,55 @@ def views_are_like_indexed(ctx, prog):
             ok = r[0] == "param" and r[1] == 1 and names in (("representation",), ("0",))
             ctx.ob(R, "%s returns the mask array of self itself" % f.short, ok, "returns %s" % show(e), f.loc())
     ctx.floor(R, n, 6, "mask views")
+
+
+def length_follows_masks(ctx, prog):
+    """the length of a position array is only (re)set where its masks are (re)defined in the same body: inside an
+    accumulate-first initialiser (after the accumulation), or after a dominating clear of the same location"""
+    eff = {}
+    for f in prog.fns:
+        if f.argc >= 1 and f.locals[1]["ty"].startswith("&mut") and ("position_array" in f.path or "FuzzyHashCompareTarget" in f.path):
+            e = body_effects(f)
+            if e:
+                eff[f.path] = e
+    accs = {p for p, e in eff.items() if e == "acc"}
+    clears = {p for p, e in eff.items() if e == "clear"}
+    import re as _re
+
+    def norm_item(p):
+        m = _re.match(r"^<[^>]* as (.*)>::([A-Za-z0-9_]+)$", p)
+        return "%s::%s" % (m.group(1), m.group(2)) if m else p
+    n = 0
+    for g in prog.fns:
+        if g.path.endswith(("::set_len_internal", "::len_mut")):
+            continue  # the primitive setters themselves
+        gs = None
+        sites = []
+        for i, t in g.calls():
+            c = callee_of(t)
+            if c.split("::")[-1] in ("set_len_internal", "len_mut") and ("position_array" in c):
+                sites.append((i, t))
+        if not sites:
+            continue
+        gs = Sym(g)
+        ctx.visit(g)
+        for i, t in sites:
+            n += 1
+            L = loc_canon(recv_loc(gs, t["args"][0]))
+            ok = False
+            why = ""
+            if g.path in accs or norm_item(g.path) in {norm_item(a) for a in accs}:
+                # inside the accumulator: the length store must come after the accumulation loop (dominated by its exit)
+                ok = all(g.dominates(i, r) for r in g.return_blocks())
+                why = "inside the accumulate-first initialiser, on every path to return"
+            else:
+                for j, u in g.calls():
+                    cu = callee_of(u)
+                    if u["args"] and any(cu == p or norm_item(cu) == norm_item(p) for p in clears) and g.dominates(j, i) and j != i \
+                            and loc_canon(recv_loc(gs, u["args"][0])) == L:
+                        ok = True
+                        why = "dominated by %s at bb%d" % (cu.split("::")[-1], j)
+                if not ok:
+                    why = "the length of %s is set on a path where its masks are neither cleared nor rebuilt" % L
+            ctx.ob(R, "%s: length store (%s) happens only where the masks are redefined" % (g.short, callee_of(t).split("::")[-1]), ok, why, g.loc(t["sp"]))
+    ctx.floor(R, n, 2, "length stores of position arrays outside the primitive setters")
